@@ -22,7 +22,7 @@ def mon01(scn, d):
                 if args[0][0] == 'C' and len(args) >= 5:
                     serial = (serial + 1) % 2**32; live[cid] = dict(sd=False, serial=serial)
                 elif args[0][0] in 'DT' and cid in live:
-                    wd = cid
+                    del live[cid]        # withdrawn by the server: whatever this very line makes the daemon print is already "after"
         for l in lines:
             p = parse_line(l)
             if p[0] == 'X':
